@@ -5,6 +5,7 @@ import (
 	"errors"
 	"fmt"
 	"sync"
+	"sync/atomic"
 	"time"
 
 	"github.com/KevoDB/kevo/pkg/common/log"
@@ -22,7 +23,7 @@ type Primary struct {
 	batcher           *WALBatcher                // Batches WAL entries for efficient transmission
 	compressor        *CompressionManager        // Handles compression/decompression
 	sessions          map[string]*ReplicaSession // Active replica sessions
-	lastSyncedSeq     uint64                     // Highest sequence number synced to disk
+	lastSyncedSeq     uint64                     // Highest sequence number synced to disk (accessed atomically)
 	retentionConfig   WALRetentionConfig         // Configuration for WAL retention
 	enableCompression bool                       // Whether compression is enabled
 	defaultCodec      proto.CompressionCodec     // Default compression codec
@@ -105,7 +106,6 @@ func NewPrimary(w *wal.WAL, config *PrimaryConfig) (*Primary, error) {
 		batcher:           batcher,
 		compressor:        compressor,
 		sessions:          make(map[string]*ReplicaSession),
-		lastSyncedSeq:     0,
 		retentionConfig:   config.RetentionConfig,
 		enableCompression: config.EnableCompression,
 		defaultCodec:      config.CompressionCodec,
@@ -183,9 +183,9 @@ func (p *Primary) OnWALBatchWritten(startSeq uint64, entries []*wal.Entry) {
 
 // OnWALSync implements WALEntryObserver.OnWALSync
 func (p *Primary) OnWALSync(upToSeq uint64) {
-	p.mu.Lock()
-	p.lastSyncedSeq = upToSeq
-	p.mu.Unlock()
+	// Called from inside the WAL with the WAL mutex held: take no replication lock here
+	// (the catch-up fetch holds replication locks and then needs the WAL mutex)
+	atomic.StoreUint64(&p.lastSyncedSeq, upToSeq)
 
 	// If we have any buffered entries, send them now that they're synced
 	if p.batcher.GetBatchCount() > 0 {
@@ -294,12 +294,12 @@ func (p *Primary) StreamWAL(
 
 // sendUpdatedEntries sends any new WAL entries to the replica since its last acknowledged sequence
 func (p *Primary) sendUpdatedEntries(session *ReplicaSession) error {
-	// Take the mutex to safely read and update session state
+	// Read the session's position, then fetch from the WAL WITHOUT holding the session
+	// mutex: a client write holds the WAL mutex while it takes the session mutex in
+	// sendToReplica, so fetching under the session mutex deadlocks against it
 	session.mu.Lock()
-	defer session.mu.Unlock()
-
-	// Get the next sequence number we should send
 	nextSequence := session.LastAckSequence + 1
+	session.mu.Unlock()
 
 	log.Info("Sending updated entries to replica %s starting from sequence %d",
 		session.ID, nextSequence)
@@ -309,6 +309,10 @@ func (p *Primary) sendUpdatedEntries(session *ReplicaSession) error {
 	if err != nil {
 		return fmt.Errorf("failed to get WAL entries: %w", err)
 	}
+
+	// Take the mutex to send and update session state
+	session.mu.Lock()
+	defer session.mu.Unlock()
 
 	if len(entries) == 0 {
 		// No new entries, nothing to send
@@ -622,9 +626,8 @@ func (p *Primary) resendEntries(session *ReplicaSession, fromSequence uint64) er
 // getWALEntriesFromSequence retrieves WAL entries starting from the specified sequence
 // in batches of up to maxEntriesToReturn entries at a time
 func (p *Primary) getWALEntriesFromSequence(fromSequence uint64) ([]*wal.Entry, error) {
-	p.mu.RLock()
-	defer p.mu.RUnlock()
-
+	// No replication lock is held while calling into the WAL (p.wal is set once in
+	// NewPrimary): a client write holds the WAL mutex while it takes p.mu
 	// Get current sequence in WAL (next sequence - 1)
 	// We subtract 1 to get the current highest assigned sequence
 	currentSeq := p.wal.GetNextSequence() - 1
